@@ -278,6 +278,8 @@ def items(tier, seed):
         kppi.append((n, True, 2, 1, 1))
         kppi.append((n, True, 1, 2, 1))
     kmu.append((2, True, 1, 2, True, (0, 2, 4)))
+    # multipole sets in other orders / without the monopole / repeated: every row is the Legendre-weighted mode mean of ITS pole
+    kmu += [(3, True, 1, 1, False, (2, 0)), (2, True, 1, 1, False, (4, 2, 0)), (3, True, 1, 1, False, (2, 4)), (2, True, 2, 1, False, (2, 0, 4))]
     kppi.append((4, True, 1, 2, 1))
     if tier == 'thorough':
         for n in (5, 6):
@@ -288,7 +290,7 @@ def items(tier, seed):
         kppi += [(3, True, 1, 2, 2), (4, True, 2, 1, 1), (4, True, 1, 2, 2), (3, True, 3, 1, 2), (3, True, 1, 3, 1)]
     out = []
     for n, F, t, Nk, mu, poles in kmu:
-        out.append(dict(name=f'kmu/n={n}/F={int(F)}/t={t}/Nk={Nk}/mu={int(mu)}/poles={len(poles)}', kind='kmu', n1d=n, Nk=Nk, mu_free=mu,
+        out.append(dict(name=f'kmu/n={n}/F={int(F)}/t={t}/Nk={Nk}/mu={int(mu)}/poles={"-".join(map(str, poles)) or "none"}', kind='kmu', n1d=n, Nk=Nk, mu_free=mu,
                         poles=poles, fourier=F, nthread=t, k0=False))
     for n, F, t, Nk, Npi in kppi:
         out.append(dict(name=f'kppi/n={n}/F={int(F)}/t={t}/Nk={Nk}/Npi={Npi}', kind='kppi', n1d=n, Nk=Nk, Npi=Npi, fourier=F, nthread=t, k0=False))
@@ -394,6 +396,25 @@ for mode in ('py_func', 'compiled'):
             out = f(n1d, L, kedges, mued, W, poles=np.array(case['poles'], dtype=np.int64), dtype=np.float64, fourier=fourier, nthread=max(1, case['nthread']))
             wc, cnt = out[0], out[1]
             ecnt, etot = brute(kedges, mued, lambda a, b, c: np.sqrt(a * a + b * b + c * c), lambda a, b, c: (abs(c) / np.sqrt(a * a + b * b + c * c)) if (a or b or c) else 0.0)
+            # multipoles: mean over ALL modes of the k bin of (2l+1) L_l(mu) x value, row ip belongs to poles[ip]
+            leg = {{0: lambda u: 1.0, 2: lambda u: 5 * (1.5 * u * u - 0.5), 4: lambda u: 9 * (35 * u ** 4 - 30 * u * u + 3) / 8}}
+            kall = brute(kedges, np.array([0.0, 1.0]), lambda a, b, c: np.sqrt(a * a + b * b + c * c), lambda a, b, c: (abs(c) / np.sqrt(a * a + b * b + c * c)) if (a or b or c) else 0.0)[0][:, 0]
+            for ip, l in enumerate(case['poles']):
+                if l not in leg: continue
+                WW = {{}}
+                ptot = np.zeros(len(kedges) - 1)
+                for a in range(n1d):
+                    for b in range(n1d):
+                        for c in range(n1d):
+                            fa, fb, fc = fr[a], fr[b], fr[c]
+                            kk = np.sqrt(fa * fa + fb * fb + fc * fc)
+                            ix = np.searchsorted(kedges, kk) - 1
+                            if not (0 <= ix < len(kedges) - 1 and kedges[ix] < kk < kedges[ix + 1]): continue
+                            cell = (a, b, int(abs(fc))) if (fc >= 0 or (n1d % 2 == 0 and c == n1d // 2)) else ((-a) % n1d, (-b) % n1d, int(-fc))
+                            ptot[ix] += W[cell] * leg[l](abs(fc) / kk if kk else 0.0)
+                exp_p = np.divide(ptot, kall, out=np.zeros_like(ptot), where=kall > 0)
+                if not np.allclose(np.asarray(out[2])[ip], exp_p, rtol=1e-9, atol=1e-12):
+                    bad.append(f'{{mode}}: poles={{case["poles"]}}: row {{ip}} (l={{l}}) = {{np.asarray(out[2])[ip].tolist()}} expected {{exp_p.tolist()}}')
         else:
             pimax, Npi = fl(m.get('pimax', 1)), case['Npi']
             f = ps.bin_kppi if mode == 'compiled' else ps.bin_kppi.py_func
